@@ -84,14 +84,15 @@ theorem build_ok (i : Invocation P L S D) (r : BuildOk L S D) (hg : gateOpen i =
   simp [runtime, apiCheck, Gen.supportedApi, buildPhase, descFullOk, finish, hdesc, hbp, hct,
     hexe, hn, hcwd, hplat, hplan, hst, hb, h2, h4, h5, h6, h7, h8, h9, Gen.exit_GENERIC_SUCCESS]
 
-/-- **M2b.** Any error of the build phase (context assembly incl. buildpack plan and previous store, the buildpack's own
-error, a layer error, a provided part that cannot be written) ⇒ `on_error` is called exactly once and the exit status
-is not 0. -/
-theorem build_error (i : Invocation P L S D) (hg : gateOpen i = true) (hexe : i.exe = .build)
+/-- **M2b, with the status.** Any error of the build phase (context assembly incl. buildpack plan and previous store, the
+buildpack's own error, a layer error, a provided part that cannot be written — because the path cannot be opened or because
+the write itself fails) ⇒ `on_error` is called exactly once and the exit status is neither 0 nor 100. -/
+theorem build_error_status (i : Invocation P L S D) (hg : gateOpen i = true) (hexe : i.exe = .build)
     (he : buildError i = true) :
-    (runtime i).onError = 1 ∧ (runtime i).exit ≠ 0 := by
+    (runtime i).onError = 1 ∧ (runtime i).exit ≠ 0 ∧ (runtime i).exit ≠ 100 := by
   obtain ⟨ok, hdesc, ⟨rbp, hbp⟩, hct, hn⟩ := open_build i hg hexe
-  have hfin : ∀ r : Eff P L S D × Except ErrKind Int, (∃ k, r.2 = .error k) → (finish r).onError = 1 ∧ (finish r).exit ≠ 0 := by
+  have hfin : ∀ r : Eff P L S D × Except ErrKind Int, (∃ k, r.2 = .error k) →
+      (finish r).onError = 1 ∧ (finish r).exit ≠ 0 ∧ (finish r).exit ≠ 100 := by
     intro r ⟨k, hk⟩; simp [finish, hk, Gen.exit_GENERIC_UNSPECIFIED_ERROR]
   have hrt : runtime i = finish (buildPhase i) := by
     simp [runtime, apiCheck, Gen.supportedApi, hdesc, hbp, hexe, hn]
@@ -102,6 +103,58 @@ theorem build_error (i : Invocation P L S D) (hg : gateOpen i = true) (hexe : i.
     cases hb : i.bbeh <;> simp [hb] <;>
     simp [buildError, contextError, hdesc, descValid, hb, hc, hp, hpl, hs, storeUnreadable] at he <;>
     (obtain ⟨k, hk, _⟩ := buildWrites_blocked i { buildRan := true } _ he; exact ⟨k, hk⟩)
+
+/-- **M2b.** Any error of the build phase (context assembly incl. buildpack plan and previous store, the buildpack's own
+error, a layer error, a provided part that cannot be written) ⇒ `on_error` is called exactly once and the exit status
+is not 0. -/
+theorem build_error (i : Invocation P L S D) (hg : gateOpen i = true) (hexe : i.exe = .build)
+    (he : buildError i = true) :
+    (runtime i).onError = 1 ∧ (runtime i).exit ≠ 0 :=
+  ⟨(build_error_status i hg hexe he).1, (build_error_status i hg hexe he).2.1⟩
+
+/-! ## M2c — a write that fails -/
+
+/-- **M2c / M1d, write faults.** *If writing any provided output fails, the phase does not end in success.* Behind open gates:
+when detection passed with a plan and the plan path can be opened but not written, or the build result provides launch.toml /
+store.toml / a build or launch SBOM of some format and the write to that file fails (`Pre.writeFails`: no space left on the
+device — at whichever output, whatever comes before or after it in the result, whatever the payloads are, with any other
+error source present or not), then `on_error` is called exactly once and the exit status is neither 0 nor 100. -/
+theorem write_fault_is_an_error (i : Invocation P L S D) (hg : gateOpen i = true) (hw : writeFault i = true) :
+    (runtime i).onError = 1 ∧ (runtime i).exit ≠ 0 ∧ (runtime i).exit ≠ 100 := by
+  have hwb : ∀ p : Pre, Spec.writeFails p = true → blocked p = true := by intro p; cases p <;> simp [Spec.writeFails, blocked]
+  have hany : ∀ (pre : Fmt → Pre) (l : List (Fmt × D)), l.any (fun x => Spec.writeFails (pre x.1)) = true →
+      l.any (fun x => blocked (pre x.1)) = true := by
+    intro pre l h
+    rw [List.any_eq_true] at h ⊢
+    obtain ⟨x, hx, hxw⟩ := h
+    exact ⟨x, hx, hwb _ hxw⟩
+  unfold writeFault at hw
+  cases hexe : i.exe with
+  | other => simp [hexe] at hw
+  | detect =>
+    have he : detectError i = true := by
+      cases hb : i.dbeh <;> simp [hexe, hb] at hw
+      simp [detectError, hb, hwb _ hw]
+    obtain ⟨a, b, c, _⟩ := detect_error i hg hexe he
+    exact ⟨a, b, c⟩
+  | build =>
+    have he : buildError i = true := by
+      cases hb : i.bbeh with
+      | err => simp [hexe, hb] at hw
+      | layerErr => simp [hexe, hb] at hw
+      | ok r =>
+        simp only [hexe, hb, Bool.or_eq_true, Bool.and_eq_true] at hw
+        have : writeBlocked i r = true := by
+          unfold writeBlocked
+          simp only [Bool.or_eq_true, Bool.and_eq_true]
+          rcases hw with ((⟨h1, h2⟩ | ⟨h1, h2⟩) | h) | h
+          · exact Or.inl (Or.inl (Or.inl ⟨h1, hwb _ h2⟩))
+          · refine Or.inl (Or.inl (Or.inr ⟨h1, ?_⟩))
+            cases hs : i.storePre <;> simp [hs] at h2; rfl
+          · exact Or.inl (Or.inr (hany _ _ h))
+          · exact Or.inr (hany _ _ h)
+        simp [buildError, hb, this]
+    exact build_error_status i hg hexe he
 
 /-! ## M3 — gatekeeping -/
 
@@ -286,6 +339,13 @@ theorem runtime_meets_table [DecidableEq P] [DecidableEq L] [DecidableEq S] [Dec
           simp only [hp, if_true, List.mem_cons, List.not_mem_nil, or_false] at hc
           rcases hc with rfl | rfl <;> simp [e1, e2, e3]
     · simp only [hg, Bool.not_true, Bool.false_eq_true, if_false] at hc
+      rw [List.mem_append] at hc
+      rcases hc with hc | hc
+      · cases hw : writeFault i
+        · simp [hw] at hc
+        · obtain ⟨w1, w2, w3⟩ := write_fault_is_an_error i hg hw
+          simp only [hw, if_true, List.mem_cons, List.not_mem_nil, or_false] at hc
+          rcases hc with rfl | rfl <;> simp [w1, w2, w3]
       obtain ⟨ok, hdesc, hbp, hct, hex⟩ := gateOpen_cases i hg
       rcases hex with ⟨hexe, hn⟩ | ⟨hexe, hn⟩
       · simp only [hexe, List.mem_append, List.mem_cons, List.not_mem_nil, or_false] at hc
@@ -334,6 +394,13 @@ example : (runtime (sample .detect 2 (.passPlan 7) .err)).plan = .written 7 := b
 example : (runtime (sample .detect 2 .fail .err)).exit = 100 := by decide
 example : detectError { sample .detect 2 (.passPlan 7) .err with planPre := .dir } = true := by decide
 example : (runtime { sample .detect 2 (.passPlan 7) .err with planPre := .dir }).onError = 1 := by decide
+example : writeFault { sample .detect 2 (.passPlan 7) .err with planPre := .writeFails } = true ∧
+    (runtime { sample .detect 2 (.passPlan 7) .err with planPre := .writeFails }).onError = 1 ∧
+    (runtime { sample .detect 2 (.passPlan 7) .err with planPre := .writeFails }).exit = 1 ∧
+    (runtime { sample .detect 2 (.passPlan 7) .err with planPre := .writeFails }).errKind = some .writePlan := by decide
+/-- a plan path that cannot be written is no fault when no plan is to be written -/
+example : writeFault { sample .detect 2 .pass .err with planPre := .writeFails } = false ∧
+    (runtime { sample .detect 2 .pass .err with planPre := .writeFails }).exit = 0 := by decide
 /-- a build result with a repeated format, next to a blocked path of a format that is *not* provided -/
 def sampleResult : BuildOk Nat Nat Nat := ⟨some 1, none, [(.cdx, 10), (.spdx, 11), (.cdx, 12)], [(.syft, 13)]⟩
 example : gateOpen (sample .build 3 .pass (.ok sampleResult)) = true ∧ buildError (sample .build 3 .pass (.ok sampleResult)) = false := by decide
@@ -341,6 +408,12 @@ example : (runtime (sample .build 3 .pass (.ok sampleResult))).bsbom .cdx = .wri
     (runtime (sample .build 3 .pass (.ok sampleResult))).bsbom .syft = .untouched ∧
     (runtime (sample .build 3 .pass (.ok sampleResult))).store = .untouched := by decide
 example : buildError (sample .build 3 .pass (.ok { sampleResult with bsboms := [(.cdx, 1), (.syft, 2)] })) = true := by decide
+/-- the write of the launch SBOM (the last output) fails after everything else was written; the store's fault appears after it was read -/
+example : writeFault { sample .build 3 .pass (.ok sampleResult) with lPre := fun f => if f = .syft then .writeFails else .file } = true ∧
+    (runtime { sample .build 3 .pass (.ok sampleResult) with lPre := fun f => if f = .syft then .writeFails else .file }).errKind = some .writeLaunchSbom ∧
+    (runtime { sample .build 3 .pass (.ok sampleResult) with lPre := fun f => if f = .syft then .writeFails else .file }).launch = .written 1 := by decide
+example : (runtime { sample .build 3 .pass (.ok { sampleResult with store := some 5 }) with storePre := .writeFails }).errKind = some .writeStore ∧
+    (runtime { sample .build 3 .pass (.ok sampleResult) with storePre := .writeFails }).exit = 0 := by decide
 example : gateOpen (sample .other 2 .pass .err) = false ∧ gateOpen (sample .detect 3 .pass .err) = false ∧
     gateOpen { sample .build 3 .pass .err with desc := .api 0 9 true } = false ∧
     gateOpen { sample .build 3 .pass .err with vars := ⟨some (.text "/cnb/bp"), some (.text "windows"), some (.text "amd64"), some (.text "v3"), none, some (.text "")⟩ } = false ∧
